@@ -20,7 +20,7 @@ class Prop(PropBase):
             "UTF-8 glyph U+0000..U+FFFF (stride 1 thorough, stride 11 plus all boundaries quick) and every byte 0..255 in a "
             "single-byte charset written through a real terminal with to_string of the same string taken in the same case; "
             "random byte strings with embedded NUL, random attributed strings (valid glyphs of 1-3 bytes incl. bytes that "
-            "look like control functions, random attributes/charsets), random splits for concatenation. Non-trivial: "
+            "look like control functions, random attributes/charsets), long strings of 120-1500 (thorough 5000) elements with attribute churn (several KiB per terminal << string), random splits for concatenation. Non-trivial: "
             "non-empty input; distinct by line text.")
     ASSUMPTIONS = ["UTF-8 glyphs are zero-padded well-formed encodings (Glyph.Valid); any byte value in single-byte charsets"]
 
@@ -52,6 +52,23 @@ class Prop(PropBase):
             k = rng.randrange(n + 1)
             cs.append(Case("z %d %s %d %s" % (k, " ".join(tg.fmt_el(e) for e in els[:k]), n - k, " ".join(tg.fmt_el(e) for e in els[k:])),
                            tag="random-splits", nontrivial=n > 0))
+        # long strings: several KiB on the wire in ONE terminal << string (block/buffer boundaries at every offset)
+        for i in range(40 if tier == "quick" else 600):
+            n = rng.choice([120, 260, 700, 1500]) if tier == "quick" else rng.choice([120, 260, 700, 1500, 5000])
+            els = []
+            prev = None
+            for _ in range(n):
+                g = rand_valid_glyph(rng) if rng.random() < 0.7 else [18] + tg.utf8_bytes(rng.choice([0xE9, 0x20AC, 0x41, rng.randrange(0x800, 0x10000)]))
+                a = (tg.mutate_attr(rng, prev[4:]) if prev is not None and rng.random() < 0.8 else tg.attr(rng))
+                if rng.random() < 0.3 and prev is not None:
+                    a = list(prev[4:])
+                prev = g + a
+                els.append(prev)
+            cs.append(Case("w %d %d %s" % (rng.choice([0, 16]), n, " ".join(tg.fmt_el(e) for e in els)), tag="long-strings"))
+            k = rng.randrange(n + 1)
+            if i % 4 == 0:
+                cs.append(Case("z %d %s %d %s" % (k, " ".join(tg.fmt_el(e) for e in els[:k]), n - k, " ".join(tg.fmt_el(e) for e in els[k:])),
+                               tag="long-splits"))
         # correspondence only: ill-formed UTF-8 storage
         for _ in range(500 if tier == "quick" else 5000):
             els = [[18, rng.randrange(256), rng.choice([0, rng.randrange(256)]), rng.choice([0, rng.randrange(256)])] + tg.DEFAULT_ATTR for _ in range(2)]
